@@ -10,10 +10,16 @@ import (
 // results: rv (count for AddSet/RemoveSet/Len), rok (bool of Add/Remove/Has)
 func init() { comps["syncset"] = driveSyncSet }
 
+// element ids 1, 2, 3 in the trace are the Go values 0, 1, 2 (the zero value is a member like any other)
 func setCall(st *sync2.Set[int], c M) Call {
-	op, k := str(c, "op"), num(c, "k")
+	op, kid := str(c, "op"), num(c, "k")
+	k := kid - 1
 	sv := ints(c, "s")
-	return Call{Desc: M{"op": op, "k": k, "v": 0, "s": sv}, Fn: func() M {
+	gosv := make([]int, len(sv))
+	for i, x := range sv {
+		gosv[i] = x - 1
+	}
+	return Call{Desc: M{"op": op, "k": kid, "v": 0, "s": sv}, Fn: func() M {
 		r := M{"rv": 0, "rok": false, "rep": []int{}}
 		switch op {
 		case "Add":
@@ -23,13 +29,13 @@ func setCall(st *sync2.Set[int], c M) Call {
 		case "Has":
 			r["rok"] = st.Has(k)
 		case "AddSet":
-			r["rv"] = st.AddSet(tmaps.NewSetFromSlice(sv))
+			r["rv"] = st.AddSet(tmaps.NewSetFromSlice(gosv))
 		case "RemoveSet":
-			r["rv"] = st.RemoveSet(tmaps.NewSetFromSlice(sv))
+			r["rv"] = st.RemoveSet(tmaps.NewSetFromSlice(gosv))
 		case "Len":
 			r["rv"] = st.Len()
 		case "Slice":
-			r["rep"] = nz(st.Slice())
+			r["rep"] = ids1(st.Slice())
 		}
 		return r
 	}}
@@ -39,9 +45,13 @@ func driveSyncSet(plan []M, out *Out, _ []string) {
 	driveWorld(plan, out, func(p M) *world {
 		st := &sync2.Set[int]{}
 		keys := ints(p, "keys")
+		gokeys := make([]int, len(keys))
+		for i, k := range keys {
+			gokeys[i] = k - 1
+		}
 		return &world{
 			snap: func(s *Sched, e M) M {
-				sn := sync2.VerifSnapshot(sync2.VerifSetMap(st), keys, func(struct{}) int { return 1 })
+				sn := sync2.VerifSnapshot(sync2.VerifSetMap(st), gokeys, func(struct{}) int { return 1 })
 				e["r"], e["d"], e["am"], e["dn"], e["ms"] = nz(sn.R), nz(sn.D), sn.Amended, sn.DirtyNil, sn.Misses
 				return e
 			},
@@ -56,11 +66,19 @@ func driveSyncSet(plan []M, out *Out, _ []string) {
 			final: func() []M {
 				evs := []M{}
 				for _, k := range keys {
-					evs = append(evs, M{"ev": "final", "op": "Has", "k": k, "rv": 0, "rok": st.Has(k), "s": []int{}})
+					evs = append(evs, M{"ev": "final", "op": "Has", "k": k, "rv": 0, "rok": st.Has(k - 1), "s": []int{}})
 				}
 				evs = append(evs, M{"ev": "final", "op": "Len", "k": 0, "rv": st.Len(), "rok": false, "s": []int{}})
-				return append(evs, M{"ev": "final", "op": "Slice", "k": 0, "rv": 0, "rok": false, "rep": nz(st.Slice()), "s": []int{}})
+				return append(evs, M{"ev": "final", "op": "Slice", "k": 0, "rv": 0, "rok": false, "rep": ids1(st.Slice()), "s": []int{}})
 			},
 		}
 	})
+}
+
+func ids1(xs []int) []int {
+	out := make([]int, 0, len(xs))
+	for _, x := range xs {
+		out = append(out, x+1)
+	}
+	return out
 }
